@@ -43,7 +43,7 @@ struct DDMap : Profile {
     std::vector<std::string> required_probes() const override
     {
         return {"dd-blocks>1", "newref-after-wrap", "find-forward", "find-backward", "cache-toggle", "restart", "dup",
-                "delete", "reuse", "special"};
+                "delete", "reuse", "special", "dup-onto-existing-refused"};
     }
 
     Plan generate(Rng &rng, bool thorough, uint64_t) override
@@ -370,7 +370,14 @@ struct DDMap : Profile {
                 Key src(TAGS[modn(o.arg(0), NTAGS)], REFS[modn(o.arg(1), NREFS)]);
                 Key dst(TAGS[modn(o.arg(2), NTAGS)], REFS[modn(o.arg(3), NREFS)]);
                 auto it = s.m.find(src);
-                if (it == s.m.end() || it->second.special || s.m.count(dst))
+                if (it != s.m.end() && !it->second.special && s.m.count(dst) && !(dst == src)) {
+                    // the new name is taken: refused, and neither entry (nor anything else of that tag) is affected -- the
+                    // map checks that follow every step see to that
+                    if (Hdupdd(fid, dst.first, dst.second, src.first, src.second) != FAIL)
+                        ctx.fail("dup-accepted", "dup-accepted:name-in-use", strf("Hdupdd(%u/%u <- %u/%u) succeeds although %u/%u exists", dst.first, dst.second, src.first, src.second, dst.first, dst.second));
+                    ctx.probe("dup-onto-existing-refused");
+                }
+                else if (it == s.m.end() || it->second.special || s.m.count(dst))
                     done = false;
                 else {
                     intn r = Hdupdd(fid, dst.first, dst.second, src.first, src.second);
